@@ -1862,8 +1862,11 @@ class Face3D(Base2DIn3D):
         if rect_res is None:
             return self.sub_faces_by_ratio(ratio)
         bottom_seg, top_seg, other_faces = rect_res
-        height_seg = LineSegment3D.from_end_points(bottom_seg.p, top_seg.p)
         norm_tup = self._normal_from_3pts(bottom_seg.p, bottom_seg.p2, top_seg.p)
+        if Vector3D(*norm_tup).dot(self.normal) < 0:  # keep the parent orientation
+            bottom_seg, top_seg = bottom_seg.flip(), top_seg.flip()
+            norm_tup = self._normal_from_3pts(bottom_seg.p, bottom_seg.p2, top_seg.p)
+        height_seg = LineSegment3D.from_end_points(bottom_seg.p, top_seg.p)
         norm = Vector3D(*norm_tup).normalize()
         base_plane = Plane(norm, bottom_seg.p, bottom_seg.v)
         sub_faces = Face3D.sub_rects_from_rect_ratio(
@@ -1903,8 +1906,11 @@ class Face3D(Base2DIn3D):
         if rect_res is None:
             return []
         bottom_seg, top_seg, _ = rect_res
-        height_seg = LineSegment3D.from_end_points(bottom_seg.p, top_seg.p)
         norm_tup = self._normal_from_3pts(bottom_seg.p, bottom_seg.p2, top_seg.p)
+        if Vector3D(*norm_tup).dot(self.normal) < 0:  # keep the parent orientation
+            bottom_seg, top_seg = bottom_seg.flip(), top_seg.flip()
+            norm_tup = self._normal_from_3pts(bottom_seg.p, bottom_seg.p2, top_seg.p)
+        height_seg = LineSegment3D.from_end_points(bottom_seg.p, top_seg.p)
         norm = Vector3D(*norm_tup).normalize()
         base_plane = Plane(norm, bottom_seg.p, bottom_seg.v)
         sub_faces = Face3D.sub_rects_from_rect_dimensions(
